@@ -8,7 +8,7 @@ ID = "C03"
 ML = "mC03"
 HARNESS = "harness/C03.c"
 SRCS = None                      # all of src/*.c ...
-EXCLUDE = ["renderbuffer.c"]     # ... except renderbuffer.c, which the harness #includes
+EXCLUDE = ["renderbuffer.c", "mockterm.c"]   # both are #included by the harness     # ... except renderbuffer.c, which the harness #includes
 DRIVER_PARTS = ["rb_common.ml", "drv_C03.ml"]
 LEVEL = "proof"
 CASE_TIMEOUT = 0.2
